@@ -17,9 +17,10 @@ from typing import Any
 
 from . import VERIF_ROOT, cfdppy_location, tree_hash
 
-EVIDENCE_DIR = VERIF_ROOT / "evidence"
-REPLAY_DIR = VERIF_ROOT / "replays"
-WORK_DIR = VERIF_ROOT / ".work"
+# the overrides are only used by tools/mut.py so that mutation trials never touch the committed evidence
+EVIDENCE_DIR = Path(os.environ.get("CFDPMON_EVIDENCE_DIR", VERIF_ROOT / "evidence"))
+REPLAY_DIR = Path(os.environ.get("CFDPMON_REPLAY_DIR", VERIF_ROOT / "replays"))
+WORK_DIR = Path(os.environ.get("CFDPMON_WORK_DIR", VERIF_ROOT / ".work"))
 KNOWN_FILE = VERIF_ROOT / "known_findings.json"
 
 MAX_VIOL_PER_WORKER = 40
@@ -109,7 +110,7 @@ def run_worker(mod, tier: str, seed: int, shard: int, nshards: int, out: Path) -
 
 
 def write_replay(prop: str, item: dict[str, Any], tier: str, seed: int) -> Path:
-    REPLAY_DIR.mkdir(exist_ok=True)
+    REPLAY_DIR.mkdir(parents=True, exist_ok=True)
     h = hashlib.sha1(json.dumps(item, sort_keys=True).encode()).hexdigest()[:12]
     p = REPLAY_DIR / f"{prop}-{h}.json"
     p.write_text(json.dumps({"property": prop, "tier": tier, "seed": seed, **item}, indent=1))
@@ -284,7 +285,7 @@ def main(argv: list[str] | None = None) -> int:
         "wall_s": round(wall, 2),
         "violations": len(new),
     }
-    EVIDENCE_DIR.mkdir(exist_ok=True)
+    EVIDENCE_DIR.mkdir(parents=True, exist_ok=True)
     (EVIDENCE_DIR / f"{prop}.json").write_text(json.dumps(ev, indent=1, sort_keys=False))
 
     print(
